@@ -14,7 +14,9 @@ RULE = ("Concurrent histories on the harness-scheduled asyncio driver: 2-4 calle
         "Second layer: 2-3 HTTP/2 connections (one per origin, limits 3-4) carrying overlapping exchanges of up to 5 callers on a "
         "well-behaved network (same stream ids in flight on different connections). Layer fault-then-reuse (enumerated, inline sync + async): one "
         "HTTP/1.1 exchange (GET / POST bytes / POST iterator, answered at the end or EARLY, i.e. as soon as the head arrived) followed by two more "
-        "requests to the same origin over 5 connection kinds, with a fault of every kind (error, timeout, end of stream) at EVERY network operation. Oracle: token echo (status, x-tok header, body / prefix for partial reads) + per-pipe wire check that a request head only starts after "
+        "requests to the same origin over 5 connection kinds, with a fault of every kind (error, timeout, end of stream) at EVERY network operation. "
+        "Layer cancel-with-sibling-writing (enumerated): a sibling's upload to the same origin is under way (HTTP/2: same connection), the victim is cancelled "
+        "at EVERY one of its suspension points (task / scope, asyncio and trio), then further requests use the same pool. Oracle: token echo (status, x-tok header, body / prefix for partial reads) + per-pipe wire check that a request head only starts after "
         "the previous exchange finished in both directions and did not announce close. Non-trivial: a connection carried >= 2 requests after "
         "a disruptive event (early close, fault, cancellation, close-announcing response), or >= 2 streams were open at once on one HTTP/2 "
         "connection; distinct = distinct scenario.")
@@ -24,6 +26,7 @@ PROP = Prop(
     layers=[Layer("histories", strategy=scenarios, execute=make_execute("C01"), budget={"quick": 3000, "thorough": 60000}),
             Layer("h2-multi-connection", strategy=h2_multi_connection_scenarios, execute=make_execute("C01"), budget={"quick": 1200, "thorough": 30000}),
             Layer("fault-then-reuse", cases=c01x.cases, execute=c01x.execute),
+            Layer("cancel-with-sibling-writing", cases=c01x.cancel_cases, execute=c01x.execute_cancel),
             __import__("vf.props.real", fromlist=["concurrent_layer"]).concurrent_layer("C01", {"quick": 320, "thorough": 12000})],
     assumptions=["the server always sends exactly one well-framed final response per complete request (malformed data is C15's domain)",
                  "asyncio and trio drivers (schedules are sampled by a harness-owned scheduler and reproducible from the replay file); threads are covered by C08",
